@@ -51,6 +51,87 @@ theorem or_table (l r : Value) : or3 l r = optBool (kOr (kleene l) (kleene r)) :
     | bool rh => cases rh <;> rfl
     | _ => rfl
 
+/-! ### negation, and the algebra of the three operators on ALL values
+
+`not` (the built-in, `core::not`) is the third operator of the truth tables.  Every value that is not a
+boolean — a list of one boolean included — counts as null in each operand position; the lattice laws of
+the three-valued logic therefore hold for arbitrary values, not only for booleans and null. -/
+
+def kNot : Option Bool → Option Bool
+  | some b => some (!b)
+  | none => none
+
+theorem not_table (v : Value) : not3 v = optBool (kNot (kleene v)) := by
+  cases v <;> rfl
+
+/-- The result of a logical operator read back as an operand is itself. -/
+theorem kleene_optBool (o : Option Bool) : kleene (optBool o) = o := by
+  cases o <;> rfl
+
+/-- A list is never a boolean operand, whatever it contains (`[true] and true` is null). -/
+theorem list_operand_is_null (vs : List Value) (r : Value) :
+    and3 (.list vs) r = and3 .null r ∧ and3 r (.list vs) = and3 r .null ∧
+    or3 (.list vs) r = or3 .null r ∧ or3 r (.list vs) = or3 r .null ∧ not3 (.list vs) = .null := by
+  simp only [and_table, or_table, not_table]
+  exact ⟨rfl, rfl, rfl, rfl, rfl⟩
+
+theorem and_comm3 (a b : Value) : and3 a b = and3 b a := by
+  simp only [and_table]
+  generalize kleene a = x; generalize kleene b = y
+  rcases x with _ | (_ | _) <;> rcases y with _ | (_ | _) <;> rfl
+
+theorem or_comm3 (a b : Value) : or3 a b = or3 b a := by
+  simp only [or_table]
+  generalize kleene a = x; generalize kleene b = y
+  rcases x with _ | (_ | _) <;> rcases y with _ | (_ | _) <;> rfl
+
+theorem and_assoc3 (a b c : Value) : and3 (and3 a b) c = and3 a (and3 b c) := by
+  simp only [and_table, kleene_optBool]
+  generalize kleene a = x; generalize kleene b = y; generalize kleene c = z
+  rcases x with _ | (_ | _) <;> rcases y with _ | (_ | _) <;> rcases z with _ | (_ | _) <;> rfl
+
+theorem or_assoc3 (a b c : Value) : or3 (or3 a b) c = or3 a (or3 b c) := by
+  simp only [or_table, kleene_optBool]
+  generalize kleene a = x; generalize kleene b = y; generalize kleene c = z
+  rcases x with _ | (_ | _) <;> rcases y with _ | (_ | _) <;> rcases z with _ | (_ | _) <;> rfl
+
+theorem and_or_distrib (a b c : Value) : and3 a (or3 b c) = or3 (and3 a b) (and3 a c) := by
+  simp only [and_table, or_table, kleene_optBool]
+  generalize kleene a = x; generalize kleene b = y; generalize kleene c = z
+  rcases x with _ | (_ | _) <;> rcases y with _ | (_ | _) <;> rcases z with _ | (_ | _) <;> rfl
+
+theorem or_and_distrib (a b c : Value) : or3 a (and3 b c) = and3 (or3 a b) (or3 a c) := by
+  simp only [and_table, or_table, kleene_optBool]
+  generalize kleene a = x; generalize kleene b = y; generalize kleene c = z
+  rcases x with _ | (_ | _) <;> rcases y with _ | (_ | _) <;> rcases z with _ | (_ | _) <;> rfl
+
+theorem de_morgan_and (a b : Value) : not3 (and3 a b) = or3 (not3 a) (not3 b) := by
+  simp only [and_table, or_table, not_table, kleene_optBool]
+  generalize kleene a = x; generalize kleene b = y
+  rcases x with _ | (_ | _) <;> rcases y with _ | (_ | _) <;> rfl
+
+theorem de_morgan_or (a b : Value) : not3 (or3 a b) = and3 (not3 a) (not3 b) := by
+  simp only [and_table, or_table, not_table, kleene_optBool]
+  generalize kleene a = x; generalize kleene b = y
+  rcases x with _ | (_ | _) <;> rcases y with _ | (_ | _) <;> rfl
+
+/-- Double negation gives back the operand as the logic sees it (null for a non-boolean). -/
+theorem not_not3 (a : Value) : not3 (not3 a) = optBool (kleene a) := by
+  simp only [not_table, kleene_optBool]
+  generalize kleene a = x
+  rcases x with _ | (_ | _) <;> rfl
+
+/-- `if` (`build_if`): the branch is chosen by the condition alone. -/
+theorem if_cases (c t e : Value) :
+    (c = .bool true → if3 c t e = t) ∧
+    ((c = .bool false ∨ c = .null) → if3 c t e = e) ∧
+    ((∀ b, c ≠ .bool b) → c ≠ .null → if3 c t e = .null) := by
+  refine ⟨fun h => by subst h; rfl, fun h => by rcases h with h | h <;> subst h <;> rfl, fun hb hn => ?_⟩
+  cases c <;> first | rfl | exact absurd rfl hn | exact absurd rfl (hb _)
+
+example : (∀ b, Value.list [.bool true] ≠ .bool b) ∧ Value.list [.bool true] ≠ .null :=
+  ⟨fun _ h => Value.noConfusion h, fun h => Value.noConfusion h⟩
+
 /-! ## equality is symmetric -/
 
 theorem instantEq_comm (a b : Instant) :
@@ -189,6 +270,360 @@ theorem neq_is_not_eq (a b : Value) :
       | _ => .null) := by
   unfold nqV eqV
   cases eqT a b <;> rfl
+
+/-! ## equality is transitive (all values), and reflexive on every value that can be compared
+
+`=` is a partial equivalence on ALL values — symmetric (`eq_symm`) and transitive (`eq_trans`, through lists and
+contexts of any depth) — and reflexive on the values for which it is defined at all: everything built from
+null, booleans, numbers, strings, dates, durations, times and date-times that have a position on the UTC line,
+lists and contexts (`Comparable`; ranges and functions are never equal to anything, themselves included:
+`eqT` is `none` = null for them). -/
+
+theorem Ctx.get_mem {c : Ctx} {k : String} {v : Value} (h : Ctx.get c k = some v) : (k, v) ∈ c := by
+  induction c with
+  | nil => simp [Ctx.get] at h
+  | cons e c ih =>
+    obtain ⟨k', v'⟩ := e
+    simp only [Ctx.get] at h
+    split at h
+    · rename_i hk; cases h; subst hk; exact List.mem_cons_self
+    · exact List.mem_cons_of_mem _ (ih h)
+
+theorem instantEq_trans (a b c : Instant)
+    (h1 : (instantCompare? a b).map (· == Ordering.eq) = some true)
+    (h2 : (instantCompare? b c).map (· == Ordering.eq) = some true) :
+    (instantCompare? a c).map (· == Ordering.eq) = some true := by
+  unfold instantCompare? at *
+  cases ha : a.key <;> cases hb : b.key <;> cases hc : c.key <;>
+    simp [ha, hb, hc, Int.compare_eq_iff'] at h1 h2 ⊢
+  omega
+
+theorem eqEntries_members : (rs : List (String × Value)) → (ts : Ctx) → eqEntries rs ts = some true →
+    ∀ e ∈ rs, ∃ v3, Ctx.get ts e.1 = some v3 ∧ eqT e.2 v3 = some true
+  | [], _, _ => by intro e he; cases he
+  | (k, v) :: rs, ts, h => by
+      simp only [eqEntries] at h
+      cases hg : Ctx.get ts k with
+      | none => simp [hg] at h
+      | some v3 =>
+        rw [hg] at h
+        simp only at h
+        cases he : eqT v v3 with
+        | none => simp [he] at h
+        | some b =>
+          cases b with
+          | false => simp [he] at h
+          | true =>
+            rw [he] at h
+            simp only at h
+            intro e hm
+            rcases List.mem_cons.mp hm with rfl | hm
+            · exact ⟨v3, hg, he⟩
+            · exact eqEntries_members rs ts h e hm
+
+mutual
+theorem eq_trans : (a b c : Value) → eqT a b = some true → eqT b c = some true → eqT a c = some true
+  | .null, b, c, h1, h2 => by
+      cases b <;> simp [eqT] at h1
+      exact h2
+  | .bool x, b, c, h1, h2 => by
+      cases b <;> simp [eqT] at h1
+      cases c <;> simp [eqT] at h2 ⊢
+      exact h1.trans h2
+  | .num x, b, c, h1, h2 => by
+      cases b <;> simp [eqT] at h1
+      cases c <;> simp [eqT] at h2 ⊢
+      simp only [Dec.beq, beq_iff_eq] at h1 h2 ⊢
+      exact Dec.cmp_eq_trans _ _ _ h1 h2
+  | .str x, b, c, h1, h2 => by
+      cases b <;> simp [eqT] at h1
+      cases c <;> simp [eqT] at h2 ⊢
+      exact h1.trans h2
+  | .date y m d, b, c, h1, h2 => by
+      cases b <;> simp [eqT] at h1
+      cases c <;> simp [eqT] at h2 ⊢
+      obtain ⟨⟨a1, a2⟩, a3⟩ := h1
+      obtain ⟨⟨b1, b2⟩, b3⟩ := h2
+      exact ⟨⟨a1.trans b1, a2.trans b2⟩, a3.trans b3⟩
+  | .time x, b, c, h1, h2 => by
+      cases b <;> simp only [eqT] at h1 <;> try (simp at h1; done)
+      cases c <;> simp only [eqT] at h2 ⊢ <;> try (simp at h2; done)
+      exact instantEq_trans _ _ _ h1 h2
+  | .dateTime x, b, c, h1, h2 => by
+      cases b <;> simp only [eqT] at h1 <;> try (simp at h1; done)
+      cases c <;> simp only [eqT] at h2 ⊢ <;> try (simp at h2; done)
+      exact instantEq_trans _ _ _ h1 h2
+  | .dtDur x, b, c, h1, h2 => by
+      cases b <;> simp [eqT] at h1
+      cases c <;> simp [eqT] at h2 ⊢
+      exact h1.trans h2
+  | .ymDur x, b, c, h1, h2 => by
+      cases b <;> simp [eqT] at h1
+      cases c <;> simp [eqT] at h2 ⊢
+      exact h1.trans h2
+  | .list ls, b, c, h1, h2 => by
+      cases b <;> simp only [eqT] at h1 <;> try (simp at h1; done)
+      cases c <;> simp only [eqT] at h2 ⊢ <;> try (simp at h2; done)
+      rename_i rs ts
+      by_cases l1 : ls.length = rs.length
+      · by_cases l2 : rs.length = ts.length
+        · simp only [l1, l2, beq_self_eq_true, if_true, Option.some.injEq] at h1 h2 ⊢
+          exact eqList_trans ls rs ts l1 l2 h1 h2
+        · simp [l2] at h2
+      · simp [l1] at h1
+  | .ctx ls, b, c, h1, h2 => by
+      cases b <;> simp only [eqT] at h1 <;> try (simp at h1; done)
+      cases c <;> simp only [eqT] at h2 ⊢ <;> try (simp at h2; done)
+      rename_i rs ts
+      by_cases l1 : ls.length = rs.length
+      · by_cases l2 : rs.length = ts.length
+        · simp only [l1, l2, beq_self_eq_true, if_true] at h1 h2 ⊢
+          by_cases m1 : ls.any (fun e => (Ctx.get rs e.1).isNone) = true
+          · simp [m1] at h1
+          · by_cases m2 : rs.any (fun e => (Ctx.get ts e.1).isNone) = true
+            · simp [m2] at h2
+            · have m1' : ls.any (fun e => (Ctx.get rs e.1).isNone) = false := by simpa using m1
+              have m2' : rs.any (fun e => (Ctx.get ts e.1).isNone) = false := by simpa using m2
+              rw [m1'] at h1; rw [m2'] at h2
+              simp only [Bool.false_eq_true, if_false] at h1 h2
+              have s1 := (anyMissing_iff ls rs).mp m1'
+              have s2 := (anyMissing_iff rs ts).mp m2'
+              have m3 : ls.any (fun e => (Ctx.get ts e.1).isNone) = false :=
+                (anyMissing_iff ls ts).mpr (fun k hk => s2 (s1 hk))
+              rw [m3]
+              simp only [Bool.false_eq_true, if_false]
+              exact eqEntries_trans ls rs ts h1 (eqEntries_members rs ts h2)
+        · simp [l2] at h2
+      · simp [l1] at h1
+  | .range .., b, _, h1, _ => by cases b <;> simp [eqT] at h1
+  | .fn .., b, _, h1, _ => by cases b <;> simp [eqT] at h1
+  | .bif _, b, _, h1, _ => by cases b <;> simp [eqT] at h1
+  | .exprList _, b, _, h1, _ => by cases b <;> simp [eqT] at h1
+  | .negList _, b, _, h1, _ => by cases b <;> simp [eqT] at h1
+  | .ctxEntry .., b, _, h1, _ => by cases b <;> simp [eqT] at h1
+  | .ctxEntryKey _, b, _, h1, _ => by cases b <;> simp [eqT] at h1
+  | .ctxTypeEntry .., b, _, h1, _ => by cases b <;> simp [eqT] at h1
+  | .ctxTypeEntryKey _, b, _, h1, _ => by cases b <;> simp [eqT] at h1
+  | .feelType _, b, _, h1, _ => by cases b <;> simp [eqT] at h1
+  | .formalParam .., b, _, h1, _ => by cases b <;> simp [eqT] at h1
+  | .formalParams _, b, _, h1, _ => by cases b <;> simp [eqT] at h1
+  | .fnBody _, b, _, h1, _ => by cases b <;> simp [eqT] at h1
+  | .intervalStart .., b, _, h1, _ => by cases b <;> simp [eqT] at h1
+  | .intervalEnd .., b, _, h1, _ => by cases b <;> simp [eqT] at h1
+  | .irrelevant, b, _, h1, _ => by cases b <;> simp [eqT] at h1
+  | .namedParam .., b, _, h1, _ => by cases b <;> simp [eqT] at h1
+  | .namedParams _, b, _, h1, _ => by cases b <;> simp [eqT] at h1
+  | .paramName _, b, _, h1, _ => by cases b <;> simp [eqT] at h1
+  | .paramTypes _, b, _, h1, _ => by cases b <;> simp [eqT] at h1
+  | .qnSegment _, b, _, h1, _ => by cases b <;> simp [eqT] at h1
+  | .unaryLt _, b, _, h1, _ => by cases b <;> simp [eqT] at h1
+  | .unaryLe _, b, _, h1, _ => by cases b <;> simp [eqT] at h1
+  | .unaryGt _, b, _, h1, _ => by cases b <;> simp [eqT] at h1
+  | .unaryGe _, b, _, h1, _ => by cases b <;> simp [eqT] at h1
+theorem eqList_trans : (ls rs ts : List Value) → ls.length = rs.length → rs.length = ts.length →
+    eqList ls rs = true → eqList rs ts = true → eqList ls ts = true
+  | [], _, _, _, _, _, _ => by simp [eqList]
+  | _ :: _, [], _, hl1, _, _, _ => by simp at hl1
+  | _ :: _, _ :: _, [], _, hl2, _, _ => by simp at hl2
+  | l :: ls, r :: rs, t :: ts, hl1, hl2, h1, h2 => by
+      simp only [eqList] at h1 h2 ⊢
+      cases e1 : eqT l r with
+      | none => simp [e1] at h1
+      | some b1 =>
+        cases b1 with
+        | false => simp [e1] at h1
+        | true =>
+          cases e2 : eqT r t with
+          | none => simp [e2] at h2
+          | some b2 =>
+            cases b2 with
+            | false => simp [e2] at h2
+            | true =>
+              rw [e1] at h1; rw [e2] at h2
+              simp only at h1 h2
+              rw [eq_trans l r t e1 e2]
+              exact eqList_trans ls rs ts (by simpa using hl1) (by simpa using hl2) h1 h2
+theorem eqEntries_trans : (ls : List (String × Value)) → (rs ts : Ctx) → eqEntries ls rs = some true →
+    (∀ e ∈ rs, ∃ v3, Ctx.get ts e.1 = some v3 ∧ eqT e.2 v3 = some true) → eqEntries ls ts = some true
+  | [], _, _, _, _ => by simp [eqEntries]
+  | (k, v1) :: ls, rs, ts, h1, h2 => by
+      simp only [eqEntries] at h1 ⊢
+      cases hg : Ctx.get rs k with
+      | none => simp [hg] at h1
+      | some v2 =>
+        rw [hg] at h1
+        simp only at h1
+        cases he : eqT v1 v2 with
+        | none => simp [he] at h1
+        | some b =>
+          cases b with
+          | false => simp [he] at h1
+          | true =>
+            rw [he] at h1
+            simp only at h1
+            obtain ⟨v3, hg3, he3⟩ := h2 (k, v2) (Ctx.get_mem hg)
+            rw [hg3]
+            simp only
+            rw [eq_trans v1 v2 v3 he he3]
+            exact eqEntries_trans ls rs ts h1 h2
+end
+
+/-- `a = b` and `b = c` true make `a = c` true — for ALL values, through lists and contexts of any depth. -/
+theorem eqV_trans (a b c : Value) (h1 : eqV a b = .bool true) (h2 : eqV b c = .bool true) :
+    eqV a c = .bool true := by
+  unfold eqV at *
+  cases e1 : eqT a b with
+  | none => simp [e1] at h1
+  | some x =>
+    cases e2 : eqT b c with
+    | none => simp [e2] at h2
+    | some y =>
+      simp only [e1, e2, Value.bool.injEq] at h1 h2
+      subst h1; subst h2
+      rw [eq_trans a b c e1 e2]
+
+example : eqT (.list [.num ⟨false, 10, -1⟩, .ctx [("a", .null)]]) (.list [.num ⟨false, 1, 0⟩, .ctx [("a", .null)]])
+    = some true := by decide
+
+mutual
+/-- The values `=` is defined on: no range, function or carrier value inside, and every time / date-time has a
+position on the UTC line. -/
+def Comparable : Value → Prop
+  | .null | .bool _ | .num _ | .str _ | .date .. | .dtDur _ | .ymDur _ => True
+  | .time t | .dateTime t => t.key.isSome = true
+  | .list vs => ComparableList vs
+  | .ctx es => ComparableEntries es
+  | _ => False
+def ComparableList : List Value → Prop
+  | [] => True
+  | v :: vs => Comparable v ∧ ComparableList vs
+def ComparableEntries : List (String × Value) → Prop
+  | [] => True
+  | (_, v) :: es => Comparable v ∧ ComparableEntries es
+end
+
+theorem instantEq_refl (t : Instant) (h : t.key.isSome = true) :
+    (instantCompare? t t).map (· == Ordering.eq) = some true := by
+  unfold instantCompare?
+  cases hk : t.key with
+  | none => simp [hk] at h
+  | some x => simp [Int.compare_eq_iff']
+
+mutual
+theorem eq_refl : (a : Value) → Comparable a → WF a → eqT a a = some true
+  | .null, _, _ => by simp [eqT]
+  | .bool _, _, _ => by simp [eqT]
+  | .num x, _, _ => by simp [eqT, Dec.beq, Dec.cmp_eq_refl]
+  | .str _, _, _ => by simp [eqT]
+  | .date .., _, _ => by simp [eqT]
+  | .dtDur _, _, _ => by simp [eqT]
+  | .ymDur _, _, _ => by simp [eqT]
+  | .time t, h, _ => by simp only [Comparable] at h; simp only [eqT]; exact instantEq_refl t h
+  | .dateTime t, h, _ => by simp only [Comparable] at h; simp only [eqT]; exact instantEq_refl t h
+  | .list ls, h, w => by
+      simp only [Comparable] at h
+      simp only [WF] at w
+      simp only [eqT, beq_self_eq_true, if_true, Option.some.injEq]
+      exact eqList_refl ls h w
+  | .ctx ls, h, w => by
+      simp only [Comparable] at h
+      simp only [WF] at w
+      simp only [eqT, beq_self_eq_true, if_true]
+      have m : ls.any (fun e => (Ctx.get ls e.1).isNone) = false := (anyMissing_iff ls ls).mpr (fun _ h => h)
+      rw [m]
+      simp only [Bool.false_eq_true, if_false]
+      have e1 := eqEntries_eq_eqPairs ls ls [] rfl (by simpa using pairwise_lt_nodup w.1)
+      simp only [List.nil_append] at e1
+      rw [e1]
+      exact eqPairs_refl ls h w.2
+  | .range .., h, _ => by simp [Comparable] at h
+  | .fn .., h, _ => by simp [Comparable] at h
+  | .bif _, h, _ => by simp [Comparable] at h
+  | .exprList _, h, _ => by simp [Comparable] at h
+  | .negList _, h, _ => by simp [Comparable] at h
+  | .ctxEntry .., h, _ => by simp [Comparable] at h
+  | .ctxEntryKey _, h, _ => by simp [Comparable] at h
+  | .ctxTypeEntry .., h, _ => by simp [Comparable] at h
+  | .ctxTypeEntryKey _, h, _ => by simp [Comparable] at h
+  | .feelType _, h, _ => by simp [Comparable] at h
+  | .formalParam .., h, _ => by simp [Comparable] at h
+  | .formalParams _, h, _ => by simp [Comparable] at h
+  | .fnBody _, h, _ => by simp [Comparable] at h
+  | .intervalStart .., h, _ => by simp [Comparable] at h
+  | .intervalEnd .., h, _ => by simp [Comparable] at h
+  | .irrelevant, h, _ => by simp [Comparable] at h
+  | .namedParam .., h, _ => by simp [Comparable] at h
+  | .namedParams _, h, _ => by simp [Comparable] at h
+  | .paramName _, h, _ => by simp [Comparable] at h
+  | .paramTypes _, h, _ => by simp [Comparable] at h
+  | .qnSegment _, h, _ => by simp [Comparable] at h
+  | .unaryLt _, h, _ => by simp [Comparable] at h
+  | .unaryLe _, h, _ => by simp [Comparable] at h
+  | .unaryGt _, h, _ => by simp [Comparable] at h
+  | .unaryGe _, h, _ => by simp [Comparable] at h
+theorem eqList_refl : (ls : List Value) → ComparableList ls → WFList ls → eqList ls ls = true
+  | [], _, _ => by simp [eqList]
+  | l :: ls, h, w => by
+      simp only [ComparableList] at h
+      simp only [WFList] at w
+      simp only [eqList]
+      rw [eq_refl l h.1 w.1]
+      exact eqList_refl ls h.2 w.2
+theorem eqPairs_refl : (ls : List (String × Value)) → ComparableEntries ls → WFEntries ls →
+    eqPairs ls ls = some true
+  | [], _, _ => by simp [eqPairs]
+  | (k, l) :: ls, h, w => by
+      simp only [ComparableEntries] at h
+      simp only [WFEntries] at w
+      simp only [eqPairs]
+      rw [eq_refl l h.1 w.1]
+      exact eqPairs_refl ls h.2 w.2
+end
+
+/-- Every comparable value equals itself; a range or a function does not (`[1..2] = [1..2]` is null). -/
+theorem eqV_refl (a : Value) (h : Comparable a) (w : WF a) : eqV a a = .bool true := by
+  unfold eqV; rw [eq_refl a h w]
+
+example : Comparable (.list [.num ⟨false, 1, 0⟩, .ctx [("a", .str "x"), ("b", .list [])]]) ∧
+    WF (.list [.num ⟨false, 1, 0⟩, .ctx [("a", .str "x"), ("b", .list [])]]) := by
+  refine ⟨by simp [Comparable, ComparableList, ComparableEntries], ?_⟩
+  simp only [WF, WFList, WFEntries, Ctx.WF, and_true, true_and]
+  decide
+
+theorem eq_range_null (lo hi : Value) (lc hc : Bool) (b : Value) :
+    eqV (.range lo lc hi hc) b = .null ∧ (b ≠ .null → eqV b (.range lo lc hi hc) = .null) := by
+  refine ⟨by simp [eqV, eqT], fun hb => ?_⟩
+  cases b <;> simp [eqV, eqT] at hb ⊢
+
+
+/-! ## `<` is transitive -/
+
+/-- `<` is transitive — on all values (it holds only between two values of one ordered kind). -/
+theorem lt_trans (a b c : Value) (h1 : ltV a b = .bool true) (h2 : ltV b c = .bool true) :
+    ltV a c = .bool true := by
+  unfold ltV at h1
+  split at h1
+  · unfold ltV at h2; split at h2 <;> simp_all [ltV]
+    exact Dec.cmp_lt_trans _ _ _ h1 h2
+  · unfold ltV at h2; split at h2 <;> simp_all [ltV]
+    exact String.compare_lt_trans _ _ _ h1 h2
+  · unfold ltV at h2; split at h2 <;> simp_all [ltV]
+    rw [datePartialCmp_lt_iff] at *
+    omega
+  · unfold ltV at h2; split at h2 <;> simp_all [ltV]
+    rw [optBool_true_iff] at h1 h2 ⊢
+    exact instantLt_trans _ _ _ h1 h2
+  · unfold ltV at h2; split at h2 <;> simp_all [ltV]
+    rw [optBool_true_iff] at h1 h2 ⊢
+    exact instantLt_trans _ _ _ h1 h2
+  · unfold ltV at h2; split at h2 <;> simp_all [ltV]
+    omega
+  · unfold ltV at h2; split at h2 <;> simp_all [ltV]
+    omega
+  · simp at h1
+
+example : ltV (.num ⟨false, 1, 0⟩) (.num ⟨false, 15, -1⟩) = .bool true ∧
+    ltV (.num ⟨false, 15, -1⟩) (.num ⟨false, 2, 0⟩) = .bool true := ⟨rfl, rfl⟩
 
 /-! ## mirrors -/
 
